@@ -151,7 +151,7 @@ def parseVariableDefinition (n : Nat) : Prog VarDef := do
       let v ← parseValueLiteral n true
       pure (Option.some v)
     else pure none
-  let dirs ← parseDirectives n false
+  let dirs ← parseDirectives n true
   pure { var := var, type := ty, default := dv, dirs := dirs, pos := pos }
 
 /-- `parseVariableDefinitions` -/
@@ -209,7 +209,7 @@ def parseFragmentWith (sel : Prog Selection) (n : Nat) : Prog Selection := do
     let pos ← peekPos
     let t ← peek
     let tc ← do
-      if t.value = kwOn then
+      if t.kind = .name ∧ t.value = kwOn then
         let _ ← next
         parseName
       else pure []
@@ -232,9 +232,9 @@ def parseRequiredSelectionSet (n : Nat) : Prog Selections :=
 /-- `parseOperationType` -/
 def parseOperationType : Prog Operation := do
   let tok ← next
-  if tok.value = kwQuery then pure kwQuery
-  else if tok.value = kwMutation then pure kwMutation
-  else if tok.value = kwSubscription then pure kwSubscription
+  if tok.kind = .name ∧ tok.value = kwQuery then pure kwQuery
+  else if tok.kind = .name ∧ tok.value = kwMutation then pure kwMutation
+  else if tok.kind = .name ∧ tok.value = kwSubscription then pure kwSubscription
   else
     unexpectedToken tok
     pure []
